@@ -144,6 +144,10 @@ CostFamilies == {
     <<"ole_vector_count",      {"doc", "ppt", "xls"}, {100, 10000, 100000000, P2}>>,
     <<"sevenz_ratio",          {"honest", "lying"}, {67108864, 134217728}>>,
     <<"sevenz_ratio",          {"admitted"},       {1048576, 8388608}>>,
+    \* declared vs actual sizes for every coder of the 7z reader (Copy, LZMA, LZMA2, BCJ chains)
+    <<"sevenz_declared",       {"copy.zero.na", "copy.smaller.na", "copy.larger.na"}, {32768}>>,
+    <<"sevenz_declared",       (DeclZero \cup DeclSmaller \cup DeclLarger \cup DeclFirstBig)
+                               \ {"copy.zero.na", "copy.smaller.na", "copy.larger.na"}, {67108864}>>,
     <<"targz_ratio",           {"skipped"},        {11534336, 67108864}>>,
     <<"targz_ratio",           {"admitted"},       {1048576, 8388608}>>,
     <<"zip_ratio",             {"skipped"},        {11534336, 67108864}>>,
@@ -196,6 +200,7 @@ NominalKiB(c, mag, pos) ==
       [] c = "image_header" -> 2
       [] c \in {"doc_dib_headers", "doc_png_signatures"} -> 140 + (mag * 40) \div 1024
       [] c = "mbox_longline" -> 1 + mag \div 1024
+      [] c = "sevenz_declared" -> IF mag = 32768 THEN 33 ELSE 10
       [] OTHER -> 4
 
 CostScns == UNION { { [Scn("cost") EXCEPT !.c = fam[1], !.pos = p, !.mag = m, !.skib = NominalKiB(fam[1], m, p)] :
